@@ -135,6 +135,41 @@ theorem self_reference_accepted (h : Hub) (id : String) (e : Expr) (hid : h.Has 
     · exact h2 hhas
   rw [if_neg this]
 
+/-! ## Concurrent requests
+
+`Micro`, `runMicro`, `Shuffle` (`Proofs/Deps.lean`): a request is a list of micro steps — suspensions and **atomic**
+hub operations; for an assignment the atomic step is `check_loops` *and* the store to `_expression` with no suspension
+between the verdict and the installation.  That atomicity with respect to the event loop is not provable about
+asyncio code from here: it is the tie watched by the concurrent correspondence cases of the harness (batches of
+assignments started together on hubs where `attr_set_expression` really suspends — a running value sequence being
+cancelled, pending evaluations, disabled ports); their oracle is exactly the conclusion of `interleaving_serial` below
+(outcomes and graph equal those of some serial order) plus acyclicity.  `nonatomic_interleaving_closes_cycle` shows what
+happens without it. -/
+
+/-- Every schedule of micro steps — hence every interleaving of concurrent requests whose check+install steps are
+atomic — keeps the hub acyclic. -/
+theorem interleaving_acyclic (h : Hub) (ha : Acyclic h) (reqs : List (List Micro)) (sched : List Micro)
+    (_hs : Shuffle reqs sched) : Acyclic (runMicro h sched) :=
+  runMicro_acyclic sched h ha
+
+/-- Every interleaving is equivalent to a serial order: the hub it produces is the one obtained by running the
+requests' operations one after the other in some permutation. -/
+theorem interleaving_serial (h : Hub) (reqs : List (List Micro)) (sched : List Micro) (hs : Shuffle reqs sched) :
+    ∃ order : List Op, order.Perm (reqs.flatMap atomics) ∧ runMicro h sched = run h order :=
+  ⟨atomics sched, shuffle_atomics_perm hs, runMicro_eq_run sched h⟩
+
+/-- Without atomicity (both checks run against the old graph, both candidates are installed afterwards) two
+individually acceptable assignments close a cycle. -/
+theorem nonatomic_interleaving_closes_cycle :
+    ∃ (h : Hub) (a b : String) (ea eb : Expr), Acyclic h ∧ checkLoops h a ea = .ok ∧ checkLoops h b eb = .ok ∧
+      ¬ Acyclic ((h.setExpr a (some ea)).setExpr b (some eb)) := by
+  refine ⟨run Hub.empty [.addPort "a", .addPort "b"], "a", "b", .call "ADD" [.portVal "b", .lit "1"],
+    .call "MUL" [.portVal "a", .lit "2"], reachable_acyclic _, by decide, by decide, ?_⟩
+  intro hac
+  refine hac "a" (TG.cons (b := "b") ?_ (TG.single ?_))
+  · exact ⟨by decide, by decide, by decide, by decide⟩
+  · exact ⟨by decide, by decide, by decide, by decide⟩
+
 /-! ## Non-vacuity: concrete instances (three ports, nested references, a disabled port, a dangling reference) -/
 
 def viaOps : List Op :=
@@ -193,5 +228,11 @@ example : (restore hub3 [⟨"x", none, .text (some (.portVal "y"))⟩,
                          ⟨"y", some false, .text (some (.call "MUL" [.portVal "x", .lit "2"]))⟩,
                          ⟨"z", none, .absent⟩]).1.ports.map (fun p => (p.id, p.enabled, p.expr.map Expr.print))
     = [("x", true, some "$y"), ("y", false, none)] := by decide
+
+-- two concurrent requests `a := $b` (suspends first: its sequence is being cancelled) and `b := $a`: an interleaving
+example : Shuffle [[.suspend, .atomic (.assign "a" (some (.portVal "b")))], [.atomic (.assign "b" (some (.portVal "a")))]]
+    [.suspend, .atomic (.assign "b" (some (.portVal "a"))), .atomic (.assign "a" (some (.portVal "b")))] :=
+  .take (pre := []) .suspend (.take (pre := [[.atomic (.assign "a" (some (.portVal "b")))]]) (post := []) _
+    (.take (pre := []) _ (.drop (.drop .nil))))
 
 end QtVerif.C04
